@@ -152,7 +152,9 @@ def case_mem2_scipy(ctx, N, nf=2, nan_at=None):
             tot = tot + out[0, i, j] * inc[j]
         if ctx.mode == "sym":
             atoms = [v[0] for k, v in ctx._uf_terms.items() if k[0] == "exp"]
-            ctx.check(ctx.eq(tot, 1), "D-SCIPY.unit", abstract=[SR(a) for a in atoms],
+            # (close: the code integrates with its own increments, wrapped differences of the float directions, which
+            #  differ from 2 pi / N in the last bits when N is not a power of two)
+            ctx.check(ctx.close(tot, 1, rtol=1e-9), "D-SCIPY.unit", abstract=[SR(a) for a in atoms],
                       lemmas=[SR(a) > 0 for a in atoms],
                       info=dict(freq=i, what="integrates to one whether or not the root finder reports success"))
         else:
